@@ -3,6 +3,7 @@
 #pragma once
 #include <functional>
 #include <limits>
+#include <tuple>
 #include "kit/gen.h"
 #include "kit/io.h"
 #include "kit/meta.h"
@@ -60,6 +61,16 @@ Ret rpc_handler(int method, const Args&... args) {
   return r.get();
 }
 
+// A handler that returns a const reference to its J-th (by-reference) argument.
+template <std::size_t J, typename... Args>
+const auto& rpc_echo(int method, const Args&... args) {
+  if (rpc_state().nested) { auto hook = std::move(rpc_state().nested); rpc_state().nested = nullptr; hook(); }
+  RpcCall c; c.method = method;
+  (c.args.kids.push_back(MetaOf<Args>::to_value(args)), ...);
+  rpc_state().log.push_back(std::move(c));
+  return std::get<J>(std::tie(args...));
+}
+
 struct RpcConn;
 // Client-side reply reader: the first primitive call of each Invoke runs the dispatcher over the
 // request bytes written so far (single-threaded request/response), then serves the reply bytes.
@@ -106,6 +117,7 @@ struct MethodOps {
   std::string name;
   bool bound = false, manual_selector = false;
   std::uint64_t selector = 0;
+  int echo_arg = -1;                          // >= 0: the handler returns a reference to this argument (the reply must carry its value)
   int substitutions = 0;                      // arguments whose handler / call-site type differs from the protocol type
   std::vector<SchemaP> arg_donors;            // tightest fungible alternative per argument (value generation)
   std::vector<SchemaP> arg_handler;           // what the bound handler decodes
